@@ -91,5 +91,8 @@ def run(ctx):
     ctx.report("shape", HV2 + ":returns-build_hash_from_parts", r.returns and r.ret == bld[0].ret, "hash_v2 returns build_hash_from_parts(d0h, i', j')", at=b.span, kind="N")
     # per-depth constants (P2, P4)
     layer_constants(ctx, crate, clause="P2/P4-per-depth-constants")
+    # the routes that do not go through hash_v2 (hash_with_dxdy, hash_v1): the base-cell step's float tie-breaks
+    from rules import c03_border_offsets
+    c03_border_offsets.tiebreaks(ctx, crate, clause="P5-tie-breaks-independent-of-depth")
     ctx.not_decided("the lemma's float side conditions (zero, negative zero, sub-normal sums, exponent overflow at depth 0) are argued on paper; containment (C01) is float numerics")
     ctx.assume("adding k<<52 to the bit pattern of a positive normal double multiplies it by 2^k exactly (IEEE-754), absent exponent overflow/underflow")
